@@ -153,6 +153,7 @@ class KernelAnalysis:
         self.cons = []          # stack of constraints on loop variables: (uid, 'eq'|'ge'|'le', Aff)
         self.wlog = []      # writes: (array, ('idx', Aff) | ('fam', start, step, length), seq, loops, stmt)
         self.rlog = []      # reads : Read objects actually consumed by a store
+        self.check_init = True      # O5 (forward kernels); pullback kernels accumulate into their out by contract
         self._init_params(graded_params)
         for ds in extra_dsyms:
             # a parameter that receives the caller's truncation degree (number of coefficients)
@@ -255,6 +256,11 @@ class KernelAnalysis:
         self.ranges = Ranges(symmin={'#D': 1})
         self._prescan_scaled()
         self.block(self.fi.node.body)
+        if self.check_init:
+            for st, name, why in init_hazards(self):
+                self.obligations += 1
+                self.issue('O5', 'VIOLATION', st, 'accumulates into `%s` before defining it (%s): the result includes the previous contents of the buffer '
+                                                  '(a re-used `out`, numpy.empty): `%s`' % (name, why, norm(st)[:90]), {'array': name})
         return self
 
     def _prescan_scaled(self):
@@ -2031,6 +2037,78 @@ def _join_w(a, b):
 
 def _fmt(w):
     return ', '.join('%s=%s' % (k.replace('#D', 'D').strip('#'), v) for k, v in sorted(w.items()) if not k.startswith('#j'))
+
+
+def _is_plain_store(st):
+    """a statement that defines the stored entries without reading their previous contents"""
+    if isinstance(st, ast.Assign):
+        return True
+    if isinstance(st, ast.AugAssign):
+        # arr *= 0 clears
+        return isinstance(st.op, ast.Mult) and isinstance(st.value, ast.Constant) and st.value.value == 0
+    return not isinstance(st, ast.AugAssign)      # call with out= / .fill(...)
+
+
+def init_hazards(ka):
+    """O5: an accumulation (`+=`, `-=`) into a coefficient of an output array that no earlier statement of the same
+    execution has defined: the result then contains whatever the buffer held before (the caller's `out` from a previous
+    call, or numpy.empty garbage).  Output arrays = role `out`, or arrays this function also stores plainly into.
+    An accumulation is covered by an allocation with zeros, by an earlier whole-array store/clear, or by an earlier
+    plain store at the same coefficient index in the same iteration of the enclosing loops.
+    -> list of (statement, array, reason)"""
+    alias = getattr(ka, 'alias_of', {})
+
+    def root(n):
+        seen = set()
+        while n in alias and n not in seen:
+            seen.add(n)
+            n = alias[n]
+        return n
+    plain_targets = {root(w[0]) for w in ka.wlog if _is_plain_store(w[4])}
+    outs = {root(g.name) for g in ka.gvars.values() if g.role == 'out'}
+    cand = plain_targets | outs
+    zero = {root(g.name) for g in ka.gvars.values() if g.zero_init}
+    issues = []
+    seen = set()
+    for (name, kind, seq, loops, st, branch, cons) in ka.wlog:
+        if not (isinstance(st, ast.AugAssign) and isinstance(st.op, (ast.Add, ast.Sub))):
+            continue
+        a = root(name)
+        if a not in cand or a in zero or id(st) in seen:
+            continue
+        g = ka.gvars.get(name)
+        covered = False
+        for (bn, bkind, bseq, bloops, bst, bbranch, bcons) in ka.wlog:
+            if root(bn) != a or bst is st or not _is_plain_store(bst):
+                continue
+            # B must execute before A whenever A executes: not nested in a loop A is not in, on A's branch path
+            if len(bloops) > len(loops) or tuple(u for u, _ in bloops) != tuple(u for u, _ in loops[:len(bloops)]):
+                continue
+            bb = dict(bbranch)
+            ab = dict(branch)
+            if any(k not in ab or ab[k] != arm for k, arm in bb.items()):
+                continue
+            if getattr(bst, 'lineno', 0) > getattr(st, 'lineno', 0):
+                continue
+            if bkind[0] == 'fam':
+                _, start, step, length = bkind
+                if start == Aff.const(0) and step == 1 and g is not None and length == g.length:
+                    covered = True
+                    break
+                if kind[0] == 'fam' and bkind[1:] == kind[1:]:
+                    covered = True
+                    break
+            elif kind[0] == 'idx' and bkind[1] == kind[1] and len(bloops) >= 0:
+                # same symbolic index; the loops that the index depends on must be shared
+                dep = kind[1].vars()
+                shared = {u for u, _ in bloops}
+                if all((v not in {u for u, _ in loops}) or v in shared for v in dep):
+                    covered = True
+                    break
+        if not covered:
+            seen.add(id(st))
+            issues.append((st, name, 'no earlier statement of this function defines %s at this coefficient index' % name))
+    return issues
 
 
 def alias_hazards(ka, W, R, dmax=5):
